@@ -32,11 +32,11 @@ use emmylua_parser::{LuaAstNode, LuaCallExpr, LuaLocalStat};
 use serde_json::{Value, json};
 use std::collections::{BTreeMap, BTreeSet};
 
-pub const TEMPLATES: &[&str] = &["id", "array-of", "elem", "mk-table", "value-of", "key-of", "optional", "pair", "dup", "call", "elem-of-tuple", "ret-fun", "param-fun", "elem2", "value-of-record", "key-of-record"];
+pub const TEMPLATES: &[&str] = &["id", "array-of", "elem", "mk-table", "value-of", "key-of", "optional", "pair", "dup", "call", "elem-of-tuple", "ret-fun", "param-fun", "elem2", "value-of-record", "key-of-record", "value-of-indexsig", "key-of-indexsig"];
 
 fn arity(tpl: &str) -> usize {
     match tpl {
-        "mk-table" | "value-of" | "key-of" | "pair" | "elem-of-tuple" | "value-of-record" | "key-of-record" => 2,
+        "mk-table" | "value-of" | "key-of" | "pair" | "elem-of-tuple" | "value-of-record" | "key-of-record" | "value-of-indexsig" | "key-of-indexsig" => 2,
         _ => 1,
     }
 }
@@ -48,8 +48,8 @@ fn decl(tpl: &str) -> (&'static str, Vec<&'static str>, &'static str) {
         "array-of" => ("T", vec!["T"], "T[]"),
         "elem" | "elem-of-tuple" => ("T", vec!["T[]"], "T"),
         "mk-table" => ("K, V", vec!["K", "V"], "table<K, V>"),
-        "value-of" | "value-of-record" => ("K, V", vec!["table<K, V>"], "V"),
-        "key-of" | "key-of-record" => ("K, V", vec!["table<K, V>"], "K"),
+        "value-of" | "value-of-record" | "value-of-indexsig" => ("K, V", vec!["table<K, V>"], "V"),
+        "key-of" | "key-of-record" | "key-of-indexsig" => ("K, V", vec!["table<K, V>"], "K"),
         "optional" => ("T", vec!["T"], "T?"),
         "pair" => ("T, U", vec!["T", "U"], "[T, U]"),
         "dup" => ("T", vec!["T"], "[T, T]"),
@@ -77,6 +77,8 @@ fn arg_annotations(tpl: &str, taus: &[Ty]) -> Vec<String> {
             crate::gens::types::Field { key: crate::gens::types::FieldKey::Name("fb".into()), optional: false, ty: t1 },
         ])
         .print()],
+        // an object type with one index signature `{ [K0]: V0 }` passed where table<K, V> is expected
+        "value-of-indexsig" | "key-of-indexsig" => vec![Ty::Record(vec![crate::gens::types::Field { key: crate::gens::types::FieldKey::Index(t0), optional: false, ty: t1 }]).print()],
         "mk-table" | "pair" => vec![t0.print(), t1.print()],
         "call" => vec![Ty::Fun(Box::new(FunTy { is_async: false, generic: None, params: vec![], vararg: None, rets: vec![t0] })).print()],
         _ => vec![t0.print()],
@@ -154,6 +156,14 @@ fn expected(tpl: &str, args: &[Canon]) -> Option<Canon> {
         },
         "key-of-record" => match a0 {
             Canon::Obj(fields, idx) if fields.len() == 2 && idx.is_empty() => mk_union(fields.iter().map(|(k, _)| Canon::Str(k.clone(), true)).collect()),
+            _ => return None,
+        },
+        "value-of-indexsig" => match a0 {
+            Canon::Obj(fields, idx) if fields.is_empty() && idx.len() == 1 => idx[0].1.clone(),
+            _ => return None,
+        },
+        "key-of-indexsig" => match a0 {
+            Canon::Obj(fields, idx) if fields.is_empty() && idx.len() == 1 => idx[0].0.clone(),
             _ => return None,
         },
         "optional" => mk_union(vec![a0.clone(), Canon::Prim("nil")]),
